@@ -96,6 +96,24 @@ Definition version_chunk : chunk := (true, le16 ptt_fav.FAV_VERSION).
 Definition file_chunks (f : fav) : res (list chunk) := res_map (cons version_chunk) (fav_chunks f).
 Definition file_image (f : fav) : res (list Z) := res_map bytes_of (file_chunks f).
 
+(* ---------------------------------------------------------------- the pttbbs .fav format, written out (specification of the writer) *)
+Definition entry_bytes (i : item) : list Z :=
+  match i with
+  | IBoard a bid v ba => [1; u8 a] ++ le32 bid ++ le32 v ++ [u8 ba; 0; 0; 0]      (* type, attr, 12-byte board *)
+  | ILine a lid => [3; u8 a; u8 lid]                                               (* type, attr, 1-byte line *)
+  | IFolder a fid t _ _ => [2; u8 a; u8 fid] ++ t                                  (* type, attr, fid, 49-byte title *)
+  end.
+(* counts, the entries of this level, then the sub-tree of each folder of this level, depth first *)
+Fixpoint spec_sub (i : item) : list Z :=
+  match i with
+  | IFolder _ _ _ h sub =>
+      le16 (h_nb h) ++ [u8 (h_nl h); u8 (h_nf h)] ++ flat_map entry_bytes sub ++ flat_map spec_sub sub
+  | _ => []
+  end.
+Definition spec_fav (f : fav) : list Z :=
+  le16 (h_nb (fst f)) ++ [u8 (h_nl (fst f)); u8 (h_nf (fst f))] ++ flat_map entry_bytes (snd f) ++ flat_map spec_sub (snd f).
+Definition spec_file (f : fav) : list Z := le16 3363 ++ spec_fav f.       (* version word FAV_VERSION first *)
+
 (* ---------------------------------------------------------------- ReadFavrec *)
 Inductive rres (A : Type) : Type :=
 | ROk (a : A)
